@@ -5,7 +5,7 @@
    (fix transactions on any lines, SaveAutofixChanges, the PLIST sorter, the
    executable-bit check) and collects the file operations [s_ops] (write of the
    temporary file, rename, chmod) and the printed AUTOFIX lines [s_log]. *)
-From PV Require Import Lib.Bytes Model.Autofix Proofs.Autofix Proofs.AutofixFs Gen.WriteSites.
+From PV Require Import Lib.Bytes Model.Autofix Proofs.Autofix Proofs.AutofixFs Proofs.AutofixCustom Gen.WriteSites.
 From Coq Require Import String.
 
 (* without --autofix the model performs no file operation, whatever the other
@@ -112,3 +112,57 @@ Proof.
   split; [repeat constructor|].
   split; eexists; (split; [vm_compute; reflexivity|]); try split; vm_compute; reflexivity.
 Qed.
+
+(* ---- the printed path and the written path (composition with C19, Model/Paths.v) ----
+   Included makefiles are written under their raw path (line.Filename(), e.g.
+   "cat/pkg/../other/../../devel/lib/version.mk") while the AUTOFIX line prints what
+   Logger.Logf makes of it: [printed_path f] = CleanPath of a non-empty f, "" for ".".
+   For every working directory: the path printed in some AUTOFIX line of the run denotes
+   (lexically, Spec/PathDenote.v) the very file that a rename replaces / a chmod changes. *)
+From PV Require Import Spec.PathDenote Proofs.AutofixPaths.
+
+Theorem C02_printed_path_denotes : forall cwd f : str, denote cwd (printed_path f) = denote cwd f.
+Proof. exact printed_path_denotes. Qed.
+Print Assumptions C02_printed_path_denotes.
+
+Theorem C02_printed_path_denotes_written :
+  forall o keys evs st st',
+    o_autofix o = true -> fresh st -> run o keys evs st = Ok st' ->
+    forall cwd,
+    Forall (fun op => forall f, op_target op = Some f ->
+              exists g, In g (s_log st') /\ denote cwd (printed_path (g_file g)) = denote cwd f)
+           (s_ops st').
+Proof. exact printed_path_denotes_written. Qed.
+Print Assumptions C02_printed_path_denotes_written.
+
+(* all operations, the temporary files included: [op_justified] with "an AUTOFIX line whose
+   printed path denotes f" in the place of "an AUTOFIX line for the raw name f" *)
+Theorem C02_autofix_ops_named :
+  forall o keys evs st st',
+    o_autofix o = true -> fresh st -> run o keys evs st = Ok st' ->
+    forall cwd, Forall (op_named cwd (s_log st')) (s_ops st').
+Proof. exact autofix_ops_named. Qed.
+Print Assumptions C02_autofix_ops_named.
+
+(* non-vacuity: "cat/pkg/../oth/../../dev/lib/v.mk" is printed as it is (CleanPath starts at
+   the third component and needs two names before "../.."), "a/b/c/d/../../e" is printed as
+   "a/b/e", "." is printed as ""; all denote the same file as the raw path *)
+Example C02_printed_path_examples :
+  printed_path [97;47;98;47;99;47;100;47;46;46;47;46;46;47;101]%N = [97;47;98;47;101]%N /\
+  printed_path [46]%N = []%list /\
+  printed_path [99;47;112;47;46;46;47;111;47;46;46;47;46;46;47;100;47;118]%N
+             = [99;47;112;47;46;46;47;111;47;46;46;47;46;46;47;100;47;118]%N /\
+  denote [47;114]%N [99;47;112;47;46;46;47;111;47;46;46;47;46;46;47;100;47;118]%N
+             = [[114]; [100]; [118]]%N%list.
+Proof. repeat split; vm_compute; reflexivity. Qed.
+
+(* mode changes are changes: every chmod the run performs (checkExecutable's Custom
+   fixer) has its printed "Clearing executable bits" line for that very file -- for all
+   histories and all option records with --autofix, in particular under --only *)
+Theorem C02_mode_change_implies_logged :
+  forall o keys evs st st',
+    o_autofix o = true -> fresh st -> run o keys evs st = Ok st' ->
+    forall p, In (OpChmod p) (s_ops st') ->
+      exists g, In g (s_log st') /\ g_file g = p /\ g_descr g = DChmod.
+Proof. exact mode_change_implies_logged. Qed.
+Print Assumptions C02_mode_change_implies_logged.
